@@ -23,6 +23,12 @@ from . import common, findings, isolate, probes
 
 EVIDENCE_DIR = os.path.join(common.VERIF_DIR, "evidence")
 REPLAY_DIR = os.path.join(common.VERIF_DIR, "replays")
+if os.environ.get("VERIF_REPO"):
+    # a run against a scratch copy of the repository (seeded-defect self-test) must not overwrite the evidence and replay
+    # files that describe /repo itself: they go next to the copy
+    _alt = os.path.join(os.path.dirname(os.path.abspath(os.environ["VERIF_REPO"])), "verif-out")
+    EVIDENCE_DIR = os.path.join(_alt, "evidence")
+    REPLAY_DIR = os.path.join(_alt, "replays")
 
 
 class Ctx:
